@@ -8,7 +8,8 @@
    M : the arithmetic of Binding.should_rename as written (rename_cost <= current_cost).
    S : the true change of the printed size, including the separator in front of an inserted
        assignment (one character at module level or in a one-line body, newline + indentation in an
-       indented block). *)
+       indented block) and one blank for every replaced literal that touched a word (`'abc'for` needs
+       none, `_A for` does: TokensS.tla). *)
 EXTENDS Naturals, Integers
 
 \* ---- M (binding.py / rename_literals.py)
@@ -23,11 +24,12 @@ ShouldRenameM(kind, L, C, plain, imps, args) == RenameCost(kind, L, C, plain, im
 
 \* ---- S : printed size after minus before
 \* sep = characters that separate an inserted assignment from what follows it
-TrueDelta(kind, L, C, plain, imps, args, sep) ==
+\* touch = replaced sites at which the literal stood directly against a keyword / name (hoisted literals only)
+TrueDelta(kind, L, C, plain, imps, args, sep, touch) ==
     LET respelled == plain * (C - L)
         imports == imps * (4 + C)                                  \* `import m` -> `import m as A`
         inserted == IF kind = "name" THEN (IF args > 0 THEN C + 1 + L + sep ELSE 0)     \* A=x<sep>
                     ELSE C + 1 + L + sep                             \* A=<builtin or literal><sep>
     IN IF kind = "name" THEN respelled + imports + inserted
-       ELSE plain * (C - L) + inserted
+       ELSE plain * (C - L) + inserted + touch
 =============================================================================
